@@ -135,14 +135,16 @@ PLAN = {
                     "scalar forms, boundary and point / multipoint arrays by the run-time checked contract (bounded)",
     ),
     'C15': dict(
-        modules=['c13_bounds', 'c14_measures', 'c15_orient', 'c16_isnull', 'glue_rep', 'glue_polygon'], level='other', stages=[RTC],
+        modules=['c13_bounds', 'c14_measures', 'c15_orient', 'c16_isnull', 'c02_point', 'c01_box', 'glue_rep', 'glue_polygon'], level='other', stages=[RTC],
         trusted_base=COMMON_TRUST + [NUMPY_TRUST],
         assumptions=[MATH_ARITH, "coordinates finite", RTC_NOTE],
         explanation="proved: orient_polygons (ring-wise identity-or-reverse, decided by the signed area and the shell/hole "
                     "role, zero-area rings untouched, cells outside rings untouched, all stores in bounds) and "
                     "PolygonArray.oriented / MultiPolygonArray.oriented relative to the pyarrow representation contracts "
                     "(offsets and missingness kept, kernel preconditions established for every array offset, input buffers "
-                    "unmodified); idempotence and the scalar view by the run-time checked contract (bounded)",
+                    "unmodified); the two segment tests behind every box intersection (segments_intersect_1d, "
+                    "segments_intersect) against direction-symmetric specifications; idempotence, the scalar view and "
+                    "unchanged intersection results by the run-time checked contract (bounded)",
     ),
     'C16': dict(
         modules=['c16_isnull', 'c13_bounds', 'c14_measures', 'c15_orient', 'c02_point', 'c01_box', 'c01_lines', 'c01_polys', 'glue_rep', 'glue_polygon', 'glue_wrappers', 'glue_take', 'glue_fixed'], level='other', stages=[RTC],
